@@ -70,6 +70,9 @@ def run_reward_sites(tier, log, seed):
                     val = ("lit", True)  # Handler::new(cfg) / EvmBuilder::handler(cfg) have no reward parameter: rewards on
                 else:
                     val = resolve_flag(fn, args[-1])
+                    # the configured handler may be a field of the receiver (EvmBuilder / Evm by value or by reference) rather than the receiver itself
+                    if val[0] == "unknown" and re.search(r"is_some of \[[\"']&\(+\*?_1\)?\.\d+: [\w:]*Handler<.*PostExecutionHandler<.*\)\.\d+: (?:std::option::)?Option<", str(val[1])):
+                        val = ("self_flag",)
                 term = {"lit": lambda v: "true" if v[1] else "false", "self_flag": lambda v: "flag_in", "unknown": lambda v: "unk"}[val[0]](val)
                 v, model, detail = duo.check(["(declare-const flag_in Bool)", "(declare-const unk Bool)"], [f"(not (= {term} flag_in))"], want_model_of=("flag_in",))
                 samples.append(f"{short}@{b.name}: builds a handler with reward = {val} while one is configured -> {v}")
